@@ -799,6 +799,17 @@ class DependsWorld:
                         out.stats['decided_method_checks'] += 1
                         if c1:
                             out.stats['probe.batched_leaf_change_then_rebuild'] += 1
+                        direct_ = [d for d in m['deps'] if '.' not in d]
+                        if got.count(mi) == 2 and any(x != y for dd, x, y in zip(m['deps'], md, a) if dd in direct_) and \
+                                any(x != y or 'UNRESOLVED' in (x, y) for dd, x, y in zip(m['deps'], md, a) if '.' in dd):
+                            from ..kernel import tolerated
+                            d_ = (f"{desc}: m{mi} depends on {m['deps']}: a direct dependency and a sub-object path changed in the same "
+                                  f"operation ({md} -> {a}); the method ran twice")
+                            if 'C07.direct_and_routed_dependency_run_twice' in tolerated('C07'):
+                                out.known.append(('C07.direct_and_routed_dependency_run_twice', d_))
+                                continue
+                            out.violations.append(('C07.direct_and_routed_dependency_run_twice', step, d_))
+                            break
                         if got.count(mi) != want:
                             out.violations.append(('C07.fire' if want else 'C07.silent', step,
                                                    f"{desc}: m{mi} depends on {m['deps']}; values through the current path {b} -> {md} -> {a}; "
@@ -850,6 +861,22 @@ class DependsWorld:
                     out.stats['dontcare.path_unresolved'] += 1
                     continue
                 out.stats['decided_method_checks'] += 1
+                if changed and n_calls == 2:
+                    # known finding: the method depends on an attribute itself AND on something reached through it: the direct
+                    # dependency and the path have a watcher each, a replacement that changes both runs the method twice
+                    direct = [d for d in m['deps'] if '.' not in d]
+                    both = [d for d in direct if any(x != y for dd, x, y in zip(m['deps'], b, a) if dd == d) and
+                            any(x != y or 'UNRESOLVED' in (x, y) for dd, x, y in zip(m['deps'], b, a) if '.' in dd)]
+                    if both:
+                        d_ = (f"{desc}: m{mi} depends on {m['deps']}: {both} changed itself and so did a value reached through a sub-object "
+                              f"path ({b} -> {a}) in the same operation; the method ran twice (one watcher for the direct dependencies, one "
+                              f"per path root)")
+                        from ..kernel import tolerated
+                        if 'C07.direct_and_routed_dependency_run_twice' in tolerated('C07'):
+                            out.known.append(('C07.direct_and_routed_dependency_run_twice', d_))
+                            continue
+                        out.violations.append(('C07.direct_and_routed_dependency_run_twice', step, d_))
+                        break
                 if changed and n_calls != 1:
                     which = [d for d, x, y in zip(m['deps'], b, a) if x != y]
                     out.violations.append(('C07.fire', step, f"{desc}: m{mi} depends on {m['deps']}; values through the current path changed for {which} "
